@@ -62,6 +62,7 @@ type Ev struct {
 	// ModCreate: what the module does from inside its response / state callback
 	RResp  string `json:"rresp"`
 	RState string `json:"rstate"`
+	RTgt   int    `json:"rtgt"` // the context the module acts on (0: the one the callback is about)
 
 	Rid  [4]int64 `json:"rid"`
 	Kind string   `json:"kind"`
@@ -281,7 +282,7 @@ func (c *Chain) Apply(e *Ev) bool {
 		if out.OK {
 			e.ID = c.NCtx
 			e.CidOK = c.newContextIDMatches()
-			c.React[e.ID] = [2]string{e.RResp, e.RState}
+			c.React[e.ID] = Reaction{e.RResp, e.RState, e.RTgt}
 			c.ReactCons[e.ID] = e.Signer
 		}
 	case "Pause":
